@@ -56,7 +56,8 @@ def run(tier, replay=None):
     runs = []
     if replay:
         obj = json.load(open(replay))["case"]
-        runs.append(("replay", obj["cases"]))
+        if not str(obj.get("leg", "")).startswith("braid"):      # replays of the braid-shell leg belong to c15b.run_leg
+            runs.append(("replay", obj["cases"]))
     else:
         for cfg in cfgs:
             res = tlc("MC_C15", cfg, workers=6, timeout=7200, tags=("CASE",), heap="6g",
@@ -125,4 +126,6 @@ def run(tier, replay=None):
                        "settlement failures are injected as GlobalTickOverflow before decision k (verif_set_global_tick) and, where the plan holds a plural decision, as PluralArtifactAlreadyBound at the shell step",
                        "fingerprints are {:?} of WorldlineRuntime and ProvenanceService with the host_test scan counter masked",
                        "one writer head per lane (v1 strands carry exactly one)"]
+    import c15b                                  # braid-shell leg: retained shells, audit, replay, collapse (spec/BraidShells.tla)
+    c15b.run_leg(ck, binp, tier, replay)
     return ck.finish()
